@@ -7,6 +7,7 @@ ENGINE = "E1-sweep"
 RULE = ("all well-formed note sets over the tick lattice (pairs over the full lattice, triples/quads around one "
         "grid point, notes + 1-2 signature events, colliding pair + far survivor) x 7 step lists; "
         "distinct = distinct (steps, notes, events); non-trivial = some event moves or some note is dropped")
+SCALE = ('16-120 notes (long) and the ladder 33..1025 notes at ticks up to ~38000 with step lists of common period 5040 / 143 / 240 / 48 / 4, dozens of collapsing notes beside surviving long ones, an event on the last tick')
 ASSUMPTIONS = ["input sequences are well-formed (property precondition)",
                "tie-breaking between equidistant grid points and the choice of surviving note are not demanded"]
 REQUIRED_FLAGS = ["step_list_object_reused", "after_history", "same_pitch_two_channels", "note_dropped", "event_moved", "isolated_note_checked",
